@@ -367,7 +367,8 @@ impl BucketSegmentReader {
         confirmation_count: u8,
     ) -> Result<bool, ReadError> {
         let confirmation_count_byte = ConfirmationCount::new(confirmation_count)?.to_byte();
-        let found = self.reader.replace_header_with(offset, |record| {
+        let mut found = false;
+        self.reader.replace_header_with(offset, |record| {
             let transaction_id_offset = mem::size_of::<RecordKindTimestamp>();
             if record.data.len() < transaction_id_offset + 16 {
                 warn!("not enough data to read transaction id");
@@ -378,6 +379,16 @@ impl BucketSegmentReader {
                     .unwrap(),
             ) != transaction_id
             {
+                return None;
+            }
+            found = true;
+
+            // Confirmation reports can arrive late and out of order: the stored count only
+            // ever grows, a stale lower report must not take a confirmation back
+            let stored = ConfirmationCount::from_byte(record.header[0])
+                .map(|count| count.get())
+                .unwrap_or(0);
+            if stored >= confirmation_count {
                 return None;
             }
 
